@@ -215,6 +215,24 @@ def run(ctx, report):
                 if f not in mi.read:
                     R2.violation(c + '.visit', '%s.visit:%s' % (c, f), '%s.visit drops field %s when rebuilding' % (c, f), where(mod, mi.fn))
                     bad = True
+        # identity shortcut: `return self` only after every sub-expression field has been visited and compared
+        if c not in LEAVES:
+            for r in [n for n in ast.walk(mi.fn) if isinstance(n, ast.Return) and u(n.value) == 'self']:
+                rpos = (r.lineno, r.col_offset)
+                for f in ef:
+                    visited_before = [call for (ff, meth, call) in mi.calls
+                                      if ff == f and meth == 'visit' and (call.lineno, call.col_offset) < rpos]
+                    compared_before = [n for n in ast.walk(mi.fn) if isinstance(n, ast.Compare)
+                                       and (n.lineno, n.col_offset) < rpos and _mentions_field(n, f, mi)]
+                    if not visited_before:
+                        R2.violation(c + '.visit', '%s.visit:return-self-before-visit:%s' % (c, f),
+                                     '%s.visit can return self before visiting sub-expression field %s (callback/substitution skipped there)' % (c, f),
+                                     where(mod, r))
+                        bad = True
+                    elif not compared_before:
+                        R2.violation(c + '.visit', '%s.visit:return-self-uncompared:%s' % (c, f),
+                                     '%s.visit returns self without comparing the visited %s with the original' % (c, f), where(mod, r))
+                        bad = True
         if not bad:
             R2.ok(c + '.visit', sample='%s.visit reads %s, recurses into %s, wrapped by visit_chk' % (c, sorted(mi.read), sorted(mi.recursed)))
     # visit_chk applies the callback to the rebuilt node
@@ -289,6 +307,16 @@ def run(ctx, report):
             R4.ok(m.name + '.op_assoc', sample='%s.op_assoc = %s' % (m.name, vals))
 
 
+def _mentions_field(cmp, f, mi):
+    """Compare node mentions self.<f> directly, or a loop variable bound from iterating self.<f>."""
+    for n in ast.walk(cmp):
+        if isinstance(n, ast.Attribute) and isinstance(n.value, ast.Name) and n.value.id == 'self' and n.attr == f:
+            return True
+        if isinstance(n, ast.Name) and mi.binds.get(n.id) == f:
+            return True
+    return False
+
+
 def enclosing(n):
     return _enclosing_fn(n)
 
@@ -343,6 +371,11 @@ MUTANTS = [
     ('replace-noop', 'miasmx/expression/expression.py',
      '            if e in dct:\n                return dct[e]\n            return e\n',
      '            return e\n', 'C15.D3'),
+    ('mem-visit-early-self', 'miasmx/expression/expression.py',
+     '        segm = self.segm\n        if isinstance(segm, Expr):\n            segm = self.segm.visit(cb)\n        else:\n            segm = None\n        arg = self.arg.visit(cb)\n        if segm == self.segm and arg == self.arg:\n            return self\n',
+     '        arg = self.arg.visit(cb)\n        if arg == self.arg:\n            return self\n        segm = self.segm\n        if isinstance(segm, Expr):\n            segm = segm.visit(cb)\n        else:\n            segm = None\n', 'C15.D2'),
+    ('cond-visit-nocompare-src2', 'miasmx/expression/expression.py',
+     '        if cond == self.cond and \\\n                src1 == self.src1 and \\\n                src2 == self.src2:\n', '        if cond == self.cond and \\\n                src1 == self.src1:\n', 'C15.D2'),
     ('compose-copy-shallow', 'miasmx/expression/expression.py',
      '        args = [(a[0].copy(), a[1], a[2]) for a in self.args]\n', '        args = [(a[0], a[1], a[2]) for a in self.args]\n', 'C15.D2'),
 ]
